@@ -71,6 +71,12 @@ streams `<stream>-internal`, and only when they exist with the expected types (`
 what relates them to the internals in the model).  After every removal the generator also queries the
 force where the removed residue was, so stale internal state shows up in an observable.
 
+Bulk position query: every `snap` also calls `update_positions_in_molecules` on caller-side molecules (one graph per
+molecule index; residues with supplied coordinates carry them as their own arrays; every handed-back row is then
+replaced by a copy; one node per molecule is unknown to the engine) and compares what the molecules carry with the
+model's table and with "last position given / undefined after removal" (oracle shape `stale-handback`; model
+`EngineLayout.handBack`, theorem `C16_handback`).
+
 Numbers: all coordinates, box lengths, sizes are dyadic (multiples of 2^-6 … 2^-2), so `-`, `%`,
 `np.round`, squares and sums of squares are exact in double; positions, index lists, `gndx_to_tree`,
 `inf` verdicts and squared `pbc_min_dist` of perfect squares are compared exactly.  The force passes through
